@@ -4,11 +4,13 @@
 package c13
 
 import (
+	"bytes"
 	"context"
 	"encoding/json"
 	"fmt"
 	"os"
 	"path/filepath"
+	"regexp"
 	"sort"
 	"strings"
 	"sync"
@@ -250,7 +252,13 @@ func genConfCase(r *vf.Run) func(t *rapid.T) ConfCase {
 			case "inert":
 				l.set(rapid.SampledFrom(inertStrings).Draw(t, "string"))
 			case "wrong_type":
-				l.set(wrongTypes[rapid.IntRange(0, len(wrongTypes)-1).Draw(t, "wrong")])
+				w := wrongTypes[rapid.IntRange(0, len(wrongTypes)-1).Draw(t, "wrong")]
+				if f, isNum := w.(float64); isNum && f > canaryNumber && r != nil && r.IsKnown(fStepHuge) && (strings.HasSuffix(l.path, ".to") || strings.HasSuffix(l.path, ".from")) {
+					// an absurd bound of a step / instance_step schedule: the shape of the listed finding
+					r.Excluded(fStepHuge)
+					w = float64(-1)
+				}
+				l.set(w)
 			case "delete":
 				l.del()
 			case "unknown_key":
@@ -271,9 +279,73 @@ func checkConf(c ConfCase, o *vf.Obs) error {
 		}
 	}
 	b, _ := json.Marshal(c.Conf)
-	return judge(note, len(b), func() error {
+	classify := func(err error) error {
+		if v, ok := err.(*violation); ok && v.id == "" && strings.Contains(v.msg, "ALLOCATION") && (bytes.Contains(b, []byte(`"step"`)) || bytes.Contains(b, []byte(`"instance_step"`))) {
+			v.id = fStepHuge
+		}
+		return err
+	}
+	// absurd numbers kill the worker when the code materialises what they say: probe with 3e6 first
+	if probe, ok := confCanary(c.Conf); ok {
+		pc := c
+		pc.Conf = probe
+		if err := judge(note, len(b), smallCeiling, func() error {
+			return bounded("config decode", func(_ context.Context) error { return confBody(pc, nil) })
+		}); err != nil {
+			err = classify(err)
+			if v, ok := err.(*violation); ok {
+				v.msg = "with every number above 3e6 replaced by 3e6: " + v.msg
+			}
+			return err
+		}
+	}
+	return classify(judge(note, len(b), smallCeiling, func() error {
 		return bounded("config decode", func(_ context.Context) error { return confBody(c, o) })
-	})
+	}))
+}
+
+const canaryNumber = 3000000
+
+var bigDigits = regexp.MustCompile(`[0-9]{8,}`)
+
+// confCanary returns a copy of conf in which every number above 3e6 (also inside
+// strings) is 3e6; ok is false when there is none.
+func confCanary(conf map[string]any) (map[string]any, bool) {
+	found := false
+	var walk func(v any) any
+	walk = func(v any) any {
+		switch x := v.(type) {
+		case map[string]any:
+			out := make(map[string]any, len(x))
+			for k, e := range x {
+				out[k] = walk(e)
+			}
+			return out
+		case []any:
+			out := make([]any, len(x))
+			for i, e := range x {
+				out[i] = walk(e)
+			}
+			return out
+		case float64:
+			if x > canaryNumber {
+				found = true
+				return float64(canaryNumber)
+			}
+			if x < -canaryNumber {
+				found = true
+				return float64(-canaryNumber)
+			}
+		case string:
+			if bigDigits.MatchString(x) {
+				found = true
+				return bigDigits.ReplaceAllString(x, fmt.Sprint(canaryNumber))
+			}
+		}
+		return v
+	}
+	out := walk(conf).(map[string]any)
+	return out, found
 }
 
 func confBody(c ConfCase, o *vf.Obs) error {
